@@ -53,6 +53,12 @@ def hash_eq(ctx, x, y):
         for p, q in zip(x.a, y.a):
             c = b_and(c, int_binop("Eq", p, q))
         return c
+    if (isinstance(x, HashV) or isinstance(y, HashV)) and ctx is not None and getattr(ctx, "sha_bytes", False):
+        # opt-in (C16): SHA-256 of data against 32 stored bytes, decided with Ackermann constraints
+        t, raw = (x, y) if isinstance(x, HashV) else (y, x)
+        rb = raw_bytes32(raw)
+        if t.kind == "data" and rb is not None:
+            return to_bool(sha_bv(ctx, t.a) == z3.Concat(*[b.z3() for b in rb]))
     if isinstance(x, HashV) or isinstance(y, HashV):
         # a hash term compared with raw bytes: a Node is never equal to a *leaf given as raw bytes* in the
         # harnesses (leaves are data, nodes are hashes of data); against other raw bytes nothing is known
@@ -62,6 +68,40 @@ def hash_eq(ctx, x, y):
         return ctx.fresh_bool("hash_eq_bytes")
     # two raw 32-byte values
     return M.eq_formula(None, x, y)
+
+
+def raw_bytes32(v):
+    """[Int;32] of a raw 32-byte array value (possibly behind a Ref / newtype), else None"""
+    for _ in range(4):
+        if isinstance(v, Ref):
+            v = v.cell.v
+        elif isinstance(v, Agg) and v.kind == "struct" and len(v.fields) == 1:
+            v = v.fields[0].v
+        else:
+            break
+    if isinstance(v, Agg) and v.kind == "array" and len(v.fields) == 32 and all(isinstance(c.v, Int) for c in v.fields):
+        return [c.v for c in v.fields]
+    return None
+
+
+def sha_bv(ctx, data):
+    """256-bit vector standing for SHA-256(data) (data: list of Int bytes, concrete length) under the
+    ideal-hash assumption.  Every application gets a fresh vector; pairwise Ackermann constraints make the
+    function well defined and injective: same length: x == y <=> h(x) == h(y); different length: h differ."""
+    apps = ctx.__dict__.setdefault("sha_apps", [])
+    n = len(data)
+    x = None if n == 0 else (data[0].z3() if n == 1 else z3.Concat(*[b.z3() for b in data]))
+    for (m, y, h) in apps:
+        if m == n and (n == 0 or x.eq(y)):
+            return h
+    h = ctx.fresh_bv("sha", 256)
+    for (m, y, g) in apps:
+        if m == n:
+            ctx.add((x == y) == (h == g))
+        else:
+            ctx.add(h != g)
+    apps.append((n, x, h))
+    return h
 
 
 def concat_and_hash(left, right):
